@@ -1510,6 +1510,13 @@ silent("c13-s-integrate-result-filters-by-dtype", "C13", INTEGRATE,
 fire("c13-integrate-measure-aligned-without-expand", "C13", INTEGRATE,
      "            lhs_white_vec, lhs_prec_sqrt = align_gaussian(\n                inputs, log_measure, expand=True\n            )\n", "            lhs_white_vec, lhs_prec_sqrt = align_gaussian(inputs, log_measure)\n", "R13.10", "eager_integrate_gaussian_gaussian")
 
+fire("c10-naive-fold-pairs-sorted-independently", "C10", SUMPROD,
+     "    prev_to_drop = dict(zip(step.keys(), drop))\n    curr_to_drop = dict(zip(step.values(), drop))\n    drop = frozenset(drop)\n",
+     "    prev_to_drop = dict(zip(sorted(step.keys()), drop))\n    curr_to_drop = dict(zip(sorted(step.values()), drop))\n    drop = frozenset(drop)\n", "R10.7", "naive_sequential_sum_product")
+silent("c10-s-naive-fold-keys-by-iteration", "C10", SUMPROD,
+       "    prev_to_drop = dict(zip(step.keys(), drop))\n    curr_to_drop = dict(zip(step.values(), drop))\n    drop = frozenset(drop)\n",
+       "    prev_to_drop = dict(zip(step, drop))\n    curr_to_drop = dict(zip([v for k, v in step.items()], drop))\n    drop = frozenset(drop)\n")
+
 # ===== derived variants: must stay at the END of this file (they enumerate every rename() variant above) =====
 # `if c: A else: B` -> `if not c: B else: A` in the anchor functions (behaviour-preserving)
 def invert(prop, file, qual):
